@@ -23,7 +23,7 @@ ASSUMPTIONS = ["nvmon.ref exact reference (piece polynomials, truncated power-se
 FLOORS = {'quick': {'curve-ders': 1500, 'surface-ders': 600, 'alt-evaluator': 400, 'above-degree': 200, 'hodograph': 150,
                     'tangent': 150, 'normal': 60, 'hook:derivatives': 100},
           'thorough': {'curve-ders': 15000, 'surface-ders': 6000, 'alt-evaluator': 4000}}
-MANDATORY_TAGS = ['large', 'tangent:int-parameter', 'short-knot-range', 'curve', 'surface', 'rational', 'u:knot', 'u:knot_full', 'u:end', 'order>degree', 'eval2', 'deg1-order>=2',
+MANDATORY_TAGS = ['unit-vectors:small-shape', 'unit-vectors:long-domain', 'square', 'large', 'tangent:int-parameter', 'short-knot-range', 'curve', 'surface', 'rational', 'u:knot', 'u:knot_full', 'u:end', 'order>degree', 'eval2', 'deg1-order>=2',
                   'mixed-partial', 'unclamped', 'unnormalized']
 TECHNIQUE = ("runtime monitoring: exact-arithmetic post-condition (piece-polynomial derivatives / power-series division) on every "
              "derivatives() call, hodograph constructor and tangent/normal query of a class-enumerating seeded workload; "
@@ -235,6 +235,8 @@ def check(case, ctx):
         ctx.tag('short-knot-range')
     if sd.get('large'):
         ctx.tag('large')
+    if sd.get('square'):
+        ctx.tag('square')
     ctx.tag('curve' if pdim == 1 else 'surface', 'rational' if sd['rational'] else 'nonrational',
             'normalized' if sd['normalize_kv'] else 'unnormalized')
     if any(c.startswith('unclamped') for c in sd['kvcls']):
@@ -350,6 +352,42 @@ def check(case, ctx):
                         abs(sum(a * b for a, b in zip(nv, sv))) <= 1e-9 * wr * max(1.0, bound) * mn * max(mv, 1.0) * max(1.0, bound / mc * mv)
                     ctx.check(ok, 'normal/surface', 'normal((%r,%r), normalize=%s) = %r, exact %r' % (prm[0], prm[1], normalize, nv, wn),
                               what='normal')
+    # ---- unit tangents / normals do not depend on the unit of length or of the parameter: the same shape 2^-17 times as large, or on a
+    #      knot range 2^14 times as long (exact powers of two: every derivative scales exactly), has the same unit vectors ----------------
+    if pdim <= 2 and rng.random() < 0.5:
+        which = rng.choice(['small-shape', 'long-domain'])
+        ctx.tag('unit-vectors:' + which)
+        if which == 'small-shape':
+            sd2 = dict(sd, ctrlpts=[[c * 2.0 ** -17 for c in p_] for p_ in sd['ctrlpts']])
+            pmap = lambda q_: list(q_)
+        else:
+            sd2 = dict(sd, normalize_kv=False, kvs=[[k_ * 2.0 ** 14 for k_ in kv] for kv in G.kvs_of(o)])
+            pmap = lambda q_: [x_ * 2.0 ** 14 for x_ in q_]
+        o2 = G.build(sd2)
+        for tags, prm in prms[:4]:
+            try:
+                if pdim == 1:
+                    a_ = operations.tangent(o, prm[0], normalize=True)[1:]
+                    b_ = operations.tangent(o2, pmap(prm)[0], normalize=True)[1:]
+                else:
+                    a_ = list(operations.tangent(o, list(prm), normalize=True)[1:])
+                    b_ = list(operations.tangent(o2, pmap(prm), normalize=True)[1:])
+                    if len(sd['ctrlpts'][0]) == 3:
+                        a_.append(operations.normal(o, list(prm), normalize=True)[1])
+                        b_.append(operations.normal(o2, pmap(prm), normalize=True)[1])
+            except Exception as e:
+                if type(e).__name__ in ('ValueError', 'ZeroDivisionError', 'GeomdlException'):
+                    ctx.count('unit-vectors-degenerate-skipped')     # zero tangent / normal: cannot be normalised in either unit
+                    continue
+                raise
+            # judged where the vectors are well defined: raw magnitudes not tiny relative to the shape
+            for va, vb in zip(a_, b_):
+                la = math.sqrt(sum(x * x for x in va))
+                if abs(la - 1.0) > 1e-9:
+                    continue            # the unit-length oracle above speaks for the original shape
+                ctx.check(all(abs(x - y) <= 1e-7 for x, y in zip(va, vb)), 'unit-vector/depends-on-scale', 'normalised tangent / normal at %r: %r for '
+                          'the shape, %r for the same shape %s' % (prm, list(va), list(vb), '2^-17 times as large' if which == 'small-shape' else
+                                                                    'on a knot range 2^14 times as long'), what='tangent')
     # ---- hodograph of a shape with a degree-1 direction: its derivative has degree 0, which the library cannot represent --------------
     if not sd['rational'] and any(d == 1 for d in degs) and pdim in (1, 2) and \
             not any(c >= p_ for kv, p_ in zip(G.kvs_of(o), degs) if p_ > 1 for k_, c in Counter(kv[p_ + 1:len(kv) - p_ - 1]).items()):
